@@ -31,6 +31,19 @@ def _query(c, q):
         return sorted(str(v) for v in c.get_space())
     if kind == "ndep":
         return len(c.get_dependents())
+    if kind == "graphs":     # every graph-level and bookkeeping query in one answer
+        n = c.get_size() if len(c) else 0
+        v, e, lab = c.get_graph()
+        out = {"size": n, "len": len(c), "vertices": sorted(v), "edges": sorted(sorted([a, b]) + [lab.get((a, b))] for a, b in e),
+               "apair": c.get_anticommutation_pair(), "pair": c.get_pair(),
+               "subgraphs": sorted(sorted(str(s) for s in sub) for sub in c.get_subgraphs()),
+               "components": sorted(sorted(str(s) for s in sub) for sub in c.get_graph_components()),
+               "independents": sorted(str(s) for s in c.get_independents()), "vertices_canon": len(c.get_canonic_vertices())}
+        if 0 < n <= 3:
+            out["commutants"] = sorted(str(s) for s in c.get_commutants())
+        if 0 < n <= 2:
+            out["quadratic"] = sorted(sorted((str(p), complex(z).real, complex(z).imag) for z, p in q.combinations) for q in c.get_full_quadratic_basis())
+        return out
     raise ValueError(kind)
 
 
@@ -164,7 +177,8 @@ def gen_history(rng, quick):
             elif t < 0.6: ops.append(["query", "is_in", x])
             elif t < 0.7: ops.append(["query", "is_eq", x])
             elif t < 0.85: ops.append(["query", "select", x])
-            elif t < 0.93 and ln <= 3: ops.append(["query", "space"])
+            elif t < 0.9 and ln <= 3: ops.append(["query", "space"])
+            elif t < 0.95: ops.append(["query", "graphs"])
             else: ops.append(["query", "ndep"])
     return {"init": init, "ops": ops}
 
